@@ -7,6 +7,6 @@ CONSTANTS
   ActiveTxs = {"p1", "p2", "p3", "p4", "p6", "p7"}
   KF_FrozenLedgerHeight = FALSE
   KF_PoolMasksBlockOrder = FALSE
-INVARIANTS TypeOK PureFn Conservation NoDoubleSpend PoolValid
+INVARIANTS TypeOK PureFn Conservation NoDoubleSpend PoolValid SnapshotOK
 VIEW View
 CHECK_DEADLOCK FALSE
